@@ -52,6 +52,7 @@ def engine():
 class Engine(object):
     def __init__(self, solver_timeout_ms=20000, seed=0):
         self.s = z3.Solver()
+        self.timeout_ms = solver_timeout_ms
         self.s.set('timeout', solver_timeout_ms)
         self.s.set('random_seed', seed & 0x7fffffff)
         self.stats = collections.Counter()
@@ -63,11 +64,55 @@ class Engine(object):
 
     # ------------------------------------------------------------------ solver access
     def check(self, *extra):
+        """satisfiability of pc (&& extra).  The incremental solver answers first; when it gives up
+        (z3's incremental core is weak on nonlinear real arithmetic) the same assertions are handed to a
+        fresh, non-incremental solver, which uses the full tactic pipeline (nlsat)."""
         t = time.time()
         r = self.s.check(*extra)
+        self._model_src = self.s
+        if r == z3.unknown:
+            s2 = z3.Solver()
+            s2.set('timeout', self.timeout_ms)
+            s2.add(*self.s.assertions())
+            s2.add(*extra)
+            r = s2.check()
+            self._model_src = s2
+            self.stats['fresh_solver_queries'] += 1
         self.ztime += time.time() - t
         self.stats['q_' + str(r)] += 1
         return r
+
+    def last_model(self):
+        return self._model_src.model()
+
+    def check_obligation(self, okz):
+        """is pc && !ok satisfiable?  First as one query under a short time limit; when the solver gives up
+        (large nonlinear conjunctions), conjunct by conjunct: pc && !c_i for every top-level conjunct c_i."""
+        conj = _conjuncts(okz)
+        if len(conj) <= 1:
+            return self.check(z3.Not(okz))
+        self.s.set('timeout', 4000)
+        try:
+            r = self.check(z3.Not(okz))
+        finally:
+            self.s.set('timeout', self.timeout_ms)
+        if r != z3.unknown:
+            return r
+        self.stats['split_obligations'] += 1
+        worst = z3.unsat
+        for c in conj:
+            r = self.check(z3.Not(c))
+            if r == z3.sat:
+                return r
+            if r == z3.unknown:
+                worst = z3.unknown
+                import os
+                if os.environ.get('VERIF_DUMP'):
+                    self.s.push()
+                    self.s.add(z3.Not(c))
+                    open(os.environ['VERIF_DUMP'], 'w').write(self.s.to_smt2())
+                    self.s.pop()
+        return worst
 
     # ------------------------------------------------------------------ one path
     def begin(self, prefix):
@@ -115,7 +160,7 @@ class Engine(object):
                 if r != z3.sat:
                     self.poison = ('inconclusive', 'pc %s' % r)
                     raise Inconclusive("path condition not sat: %s" % r)
-                self.model = self.s.model()
+                self.model = self.last_model()
                 ev = self.model.eval(cond, model_completion=True)
                 mv = z3.is_true(ev)
             other = z3.Not(cond) if mv else cond
@@ -128,7 +173,7 @@ class Engine(object):
                 self.pending.append(self.trace + [False])
                 self.stats['forks'] += 1
                 if not mv:
-                    self.model = self.s.model()
+                    self.model = self.last_model()
             else:
                 b = mv
         self.trace.append(b)
@@ -204,7 +249,7 @@ class Engine(object):
                         res['abort_reasons'].append(why)
                         return res
                     if isinstance(ok, SymBool):
-                        r = self.check(z3.Not(ok.z))
+                        r = self.check_obligation(ok.z)
                         if r == z3.unknown:
                             res['status'] = 'inconclusive'
                             res['abort_reasons'].append('unknown on obligation')
@@ -212,7 +257,7 @@ class Engine(object):
                         if r == z3.unsat:
                             ok = True
                         else:
-                            m = self.s.model()      # model of pc && !ok (taken before anything else touches the solver)
+                            m = self.last_model()      # model of pc && !ok (taken before anything else touches the solver)
                             ok = False
                     elif not ok:
                         r = self.check()
@@ -220,13 +265,13 @@ class Engine(object):
                             res['status'] = 'inconclusive'
                             res['abort_reasons'].append('pc %s at obligation' % r)
                             return res
-                        m = self.s.model()
+                        m = self.last_model()
                     if ok:
                         res['verified'] += 1
                         if len(res['witnesses']) < witness_cap or on_path is not None:
                             r = self.check()
                             if r == z3.sat:
-                                m = self.s.model()
+                                m = self.last_model()
                                 w = {'inputs': self.concrete_inputs(m), 'obs': concretize(self.obs, m, self),
                                      'notes': dict(self.notes)}
                                 if len(res['witnesses']) < witness_cap:
@@ -256,6 +301,18 @@ class Engine(object):
         for name, sym in self.decls:
             out[name] = concretize(sym, m, self)
         return out
+
+
+def _conjuncts(z):
+    out = []
+    stack = [z]
+    while stack:
+        t = stack.pop()
+        if z3.is_and(t):
+            stack.extend(t.children())
+        else:
+            out.append(t)
+    return out
 
 
 # ---------------------------------------------------------------------- concretisation
@@ -808,7 +865,7 @@ def concretize_int(x, fanout=12):
         if r != z3.sat:
             _E.poison = ('inconclusive', 'concretize: pc %s' % r)
             raise Inconclusive("concretize: pc %s" % r)
-        v = _E.s.model().eval(z, model_completion=True).as_long()
+        v = _E.last_model().eval(z, model_completion=True).as_long()
         _E.model = None
         if _E.decide(z == v):
             return v
